@@ -1,5 +1,5 @@
 (** C04 — every REST / web-UI / monitor-socket use of the URL name (the generated list read_sites) computes the name fixed at RCPT time, from the address and from the name itself *)
-From IV Require Import Base.Bytes Model.Addr Proofs.AddrFacts Proofs.AddrScan Proofs.AddrDomain Proofs.AddrNaming Proofs.AddrReadSide.
-Theorem read_side_same_name : forall (parse_ip : str -> bool), (forall s, parse_ip (lower s) = parse_ip s) -> forall site flow, In (site, flow) read_sites -> forall mode a r, new_recipient parse_ip mode a = Some r -> read_name parse_ip mode flow a = Some (r_mailbox r) /\ read_name parse_ip mode flow (r_mailbox r) = Some (r_mailbox r).
-Proof. exact AddrReadSide.read_side_same_name. Qed.
+From IV Require Import Base.Bytes Model.Addr Model.IpLit Model.AddrU Proofs.AddrNaming Proofs.AddrGo Proofs.IpLit.
+Theorem read_side_same_name : forall site flow, In (site, flow) read_sites -> forall mode a r, new_recipient go_parse_ip mode a = Some r -> read_name go_parse_ip mode flow a = Some (r_mailbox r) /\ read_name go_parse_ip mode flow (r_mailbox r) = Some (r_mailbox r).
+Proof. exact AddrGo.read_side_same_name_go. Qed.
 Print Assumptions read_side_same_name.
